@@ -6,7 +6,7 @@ PROPERTY = {
     "explanation": "the real insert / remove / lookup code run on EVERY valid AVL tree of depth <= 3 (<= 7 nodes; one unit per tree shape, keys/positions symbolic; a deterministic sample (every 16th) of the depth-4 shapes = up to 15 nodes in the thorough tier; VERIF_FULL_D4=1 runs all of them, ~3 h), every key position (new or resident) and every node to remove; the result is judged by a recursive checker over the actual links (search order, parent links, stored balance factor == height difference, |difference| <= 1) and by node count + lookups (element set)",
     "trusted_base": ["cbmc 6.11.0 (SAT back end CaDiCaL)"],
     "assumptions": [
-        "induction over histories: every operation is verified from every valid tree of the bounded depth; UNBOUNDED part: window lemmas avl_lemma_growth / avl_lemma_shrink prove the retrace steps a_avl_handle_growth / a_avl_handle_shrink (with a_avl_rotate / a_avl_rotate2, packed layout) for subtrees of every size (ghost heights up to 2^20): valid window + height restored, or the step invariant one level up; the induction over the climb loop is a paper step. Glue lemmas (same windows, the retrace step replaced by a recording stand-in through DFCC contract replacement): avl_lemma_insert_first(_root) - a_avl_insert_adjust either absorbs the new leaf (valid window, no step) or starts exactly one step at (grandparent, parent, side) in a heap that IS the step invariant J_grow; avl_lemma_unlink_simple(_root) - a_avl_remove of a node with at most one child hands exactly J_shrink to the first step (or installs the child as root); avl_lemma_splice / avl_lemma_splice_remove - the successor splice a_avl_handle_remove (spine depth <= 2) directly and through a_avl_remove's two-child path incl. the side handed to the first step. Not covered by a lemma: the descent/search loops, successors deeper than two levels (bounded whole trees only)",
+        "induction over histories: every operation is verified from every valid tree of the bounded depth; UNBOUNDED part: window lemmas avl_lemma_growth / avl_lemma_shrink prove the retrace steps a_avl_handle_growth / a_avl_handle_shrink (with a_avl_rotate / a_avl_rotate2, packed layout) for subtrees of every size (ghost heights up to 2^20): valid window + height restored, or the step invariant one level up; the induction over the climb loop is a paper step. Glue lemmas (same windows, the retrace step replaced by a recording stand-in through DFCC contract replacement): avl_lemma_insert_first(_root) - a_avl_insert_adjust either absorbs the new leaf (valid window, no step) or starts exactly one step at (grandparent, parent, side) in a heap that IS the step invariant J_grow; avl_lemma_unlink_simple(_root) - a_avl_remove of a node with at most one child hands exactly J_shrink to the first step (or installs the child as root); avl_lemma_splice / avl_lemma_splice_remove - the successor splice a_avl_handle_remove (spine depth <= 2) directly and through a_avl_remove's two-child path incl. the side handed to the first step. Descent lemmas avl_lemma_search / avl_lemma_descent (harness/search_lemma.c): the loops of a_avl_search and a_avl_insert under DFCC loop contracts on an arbitrary heap with ghost key intervals (every step keeps the searched key inside the current node's interval; termination; a found element has the key; a resident key returns the resident and writes nothing; otherwise the new leaf is linked into an EMPTY child slot on the side its key belongs to and the rebalancing - replaced by a recording contract - is started once); 'absent when the search falls off' follows on paper from the disjointness of the intervals. Not covered by a lemma: successors deeper than two levels (bounded whole trees only)",
         "whole-tree units use the node layout with separate parent/factor fields (A_SIZE_POINTER=1): cbmc cannot propagate pointers through the packed parent word ((uintptr)parent | factor+1) and the packed whole-tree encoding needs > 40 GB. The packed layout is covered by accessor round-trip proofs (unit packed_accessors, all parent pointers and factors/colours) and, in the thorough tier only, by packed whole-tree units on trees of depth <= 2 (heavy: minutes and tens of GB); the few layout-specific lines outside the accessors (a_avl_handle_remove copies the packed word) are only exercised there",
         "the comparison callback returns the key difference (any magnitude): only its sign may be used",
     ],
@@ -58,3 +58,6 @@ for m in _d4:
     b = "AVL tree shape 0x%04x of depth 4 (<= 15 nodes), keys and positions symbolic" % m
     UNITS.append(T("avl_insert_d4_s%04x" % m, "h_insert", 4, tiers=("thorough",), defs=["A_SIZE_POINTER=1", "SHAPE=0x%x" % m], functions=INS, bound=b, timeout=1200, mem_est=9))
     UNITS.append(T("avl_remove_d4_s%04x" % m, "h_remove", 4, tiers=("thorough",), defs=["A_SIZE_POINTER=1", "SHAPE=0x%x" % m], functions=REM, bound=b, timeout=1200, mem_est=9))
+
+from descent import descent_units
+UNITS += descent_units("avl", "a_avl_search", "a_avl_insert", "a_avl_insert_adjust", [])
